@@ -255,10 +255,10 @@ variable (tbl : List Row) (cks : List Nat → List Nat) (hck : CksOk cks)
 /-- the canonical encoding of payload `v` for row `r` -/
 def encOf (cks : List Nat → List Nat) (r : Row) (v : List Nat) : List Nat := b58encCheck cks (r.bin ++ v)
 
-include hck hok in
-theorem encOf_shape (r : Row) (hr : r ∈ tbl) (v : List Nat) (hl : v.length = r.dataLen) (hv : IsBytes v) :
+include hck in
+theorem encOf_shape (r : Row) (hrow : rowOk r = true) (v : List Nat) (hl : v.length = r.dataLen) (hv : IsBytes v) :
     (encOf cks r v).length = r.encLen ∧ r.human <+: encOf cks r v ∧ rstrip (encOf cks r v) = encOf cks r v := by
-  have := rowOk_enc r (hok r hr) v (cks (r.bin ++ v)) hl hv (hck.len _) (hck.bytes _)
+  have := rowOk_enc r hrow v (cks (r.bin ++ v)) hl hv (hck.len _) (hck.bytes _)
   unfold encOf b58encCheck
   exact this
 
@@ -268,12 +268,13 @@ theorem encodeWith_row (r : Row) (hr : r ∈ tbl) (v : List Nat) (hl : v.length 
   unfold encodeWith
   rw [hl, findEncodeRow_unique tbl hed r hr]; rfl
 
-include hck hok hdis in
-theorem decodeWith_enc (chkBin chkLen : Bool) (r : Row) (hr : r ∈ tbl) (v : List Nat)
+include hck hdis in
+/-- decode ∘ encode for one row that satisfies `rowOk`, whatever validations decode performs -/
+theorem decodeWith_enc (chkBin chkLen : Bool) (r : Row) (hr : r ∈ tbl) (hrow : rowOk r = true) (v : List Nat)
     (hl : v.length = r.dataLen) (hv : IsBytes v) :
     decodeWith tbl chkBin chkLen cks (encOf cks r v) = .ok v := by
-  obtain ⟨h1, h2, h3⟩ := encOf_shape tbl cks hck hok r hr v hl hv
-  have hbin := rowOk_bin_bytes r (hok r hr)
+  obtain ⟨h1, h2, h3⟩ := encOf_shape cks hck r hrow v hl hv
+  have hbin := rowOk_bin_bytes r hrow
   unfold decodeWith
   rw [findDecodeRow_unique tbl hdis _ r hr h1 h2]
   simp only
@@ -309,7 +310,7 @@ theorem decodeWith_sound (s v : List Nat) (h : decodeWith tbl true true cks s = 
         subst hv
         have hvl : v.length = r.dataLen := by rw [← ht] at hdl; simp at hdl; exact hdl
         have hvb : IsBytes v := fun b hb => hdb b (by rw [← ht]; exact List.mem_append_right _ hb)
-        obtain ⟨h1, _, _⟩ := encOf_shape tbl cks hck hok r hr v hvl hvb
+        obtain ⟨h1, _, _⟩ := encOf_shape cks hck r (hok r hr) v hvl hvb
         -- `rstrip s` is the canonical encoding, of full length, so nothing was stripped
         have hrs' : rstrip s = encOf cks r v := by rw [hrs, ← ht]; rfl
         have hs : rstrip s = s := by
@@ -322,8 +323,8 @@ include hck hok hdis in
 theorem encOf_inj (r r' : Row) (hr : r ∈ tbl) (hr' : r' ∈ tbl) (v v' : List Nat)
     (hl : v.length = r.dataLen) (hv : IsBytes v) (hl' : v'.length = r'.dataLen) (hv' : IsBytes v')
     (h : encOf cks r v = encOf cks r' v') : r = r' ∧ v = v' := by
-  obtain ⟨h1, h2, _⟩ := encOf_shape tbl cks hck hok r hr v hl hv
-  obtain ⟨h1', h2', _⟩ := encOf_shape tbl cks hck hok r' hr' v' hl' hv'
+  obtain ⟨h1, h2, _⟩ := encOf_shape cks hck r (hok r hr) v hl hv
+  obtain ⟨h1', h2', _⟩ := encOf_shape cks hck r' (hok r' hr') v' hl' hv'
   rw [← h] at h1' h2'
   have hf := findDecodeRow_unique tbl hdis _ r hr h1 h2
   have hf' := findDecodeRow_unique tbl hdis _ r' hr' h1' h2'
@@ -354,7 +355,7 @@ theorem validateWith_iff (prefixes : List (List Nat)) (s : List Nat) :
       split at h
       next v hdec =>
         obtain ⟨r', hr', hvl, hvb, hs⟩ := decodeWith_sound tbl cks hck hok s v hdec
-        obtain ⟨h1, h2, _⟩ := encOf_shape tbl cks hck hok r' hr' v hvl hvb
+        obtain ⟨h1, h2, _⟩ := encOf_shape cks hck r' (hok r' hr') v hvl hvb
         rw [← hs] at h1 h2
         have hf := findDecodeRow_unique tbl hdis _ r hr hlen hpre
         have hf' := findDecodeRow_unique tbl hdis _ r' hr' h1 h2
@@ -364,12 +365,12 @@ theorem validateWith_iff (prefixes : List (List Nat)) (s : List Nat) :
       · simp at h
     · simp at h
   · rintro ⟨r, hr, hmem, v, hvl, hvb, hs⟩
-    obtain ⟨h1, h2, _⟩ := encOf_shape tbl cks hck hok r hr v hvl hvb
+    obtain ⟨h1, h2, _⟩ := encOf_shape cks hck r (hok r hr) v hvl hvb
     have hhit : (tbl.any fun r => prefixes.contains r.human && (s.length == r.encLen && r.human.isPrefixOf s)) = true := by
       simp only [List.any_eq_true, Bool.and_eq_true, List.contains_iff_mem, beq_iff_eq,
         List.isPrefixOf_iff_prefix]
       exact ⟨r, hr, hmem, by rw [hs]; exact h1, by rw [hs]; exact h2⟩
-    rw [hhit, hs, decodeWith_enc tbl cks hck hok hdis true true r hr v hvl hvb]
+    rw [hhit, hs, decodeWith_enc tbl cks hck hdis true true r hr (hok r hr) v hvl hvb]
     simp
 
 end Table
